@@ -34,17 +34,22 @@ Ltac hproj := cbn [HypergeometicDist_N HypergeometicDist_K HypergeometicDist_Dra
 Lemma wrap64 z : (- 4611686018427387904 <= z < 4611686018427387904)%Z -> wrap_s 64 z = z.
 Proof. exact (wrap_s64_small z). Qed.
 
-Lemma mul_bd a b A B : (0 <= a <= A)%Z -> (0 <= b <= B)%Z -> (0 <= a * b <= A * B)%Z.
-Proof. intros Ha Hb. split; [apply Z.mul_nonneg_nonneg; lia | apply Z.mul_le_mono_nonneg; lia]. Qed.
+(* all integer atoms are below 2^15 + 1 in absolute value; [unwrap64] removes Go's wrap-around from
+   any polynomial of degree <= 4 over them, whatever its shape *)
+Ltac hg_unwrap := unfold go_sadd, go_ssub, go_smul, go_sneg; unwrap64 32769%Z.
+Ltac inj_eq :=
+  match goal with
+  | |- inject_Z ?a / inject_Z ?b == inject_Z ?c / inject_Z ?d =>
+      replace a with c by ring; replace b with d by ring; reflexivity
+  end.
 
 Theorem tie_hg_bounds : forall d : HypergeometicDist_rec, hg_guard d ->
   gen_HypergeometicDist_bounds d =
   hg_bounds (HypergeometicDist_N d) (HypergeometicDist_K d) (HypergeometicDist_Draws d).
 Proof.
   intros [N K n] (HK & Hn & HN). hproj. zpow.
-  unfold gen_HypergeometicDist_bounds, hg_bounds, hg_lo, hg_hi, gen_maxint, gen_minint, go_sadd, go_ssub. hproj.
-  rewrite (wrap64 (n + K)) by lia. rewrite (wrap64 (n + K - N)) by lia.
-  f_equal; zcases; lia.
+  unfold gen_HypergeometicDist_bounds, hg_bounds, hg_lo, hg_hi, gen_maxint, gen_minint. hproj.
+  hg_unwrap. f_equal; zcases; lia.
 Qed.
 
 Theorem tie_hg_Bounds : forall d : HypergeometicDist_rec, hg_guard d ->
@@ -62,27 +67,14 @@ Theorem tie_hg_Mean : forall d : HypergeometicDist_rec, hg_guard d ->
   gen_HypergeometicDist_Mean d ==
   hg_mean (HypergeometicDist_N d) (HypergeometicDist_K d) (HypergeometicDist_Draws d).
 Proof.
-  intros [N K n] (HK & Hn & HN). hproj. unfold gen_HypergeometicDist_Mean, hg_mean, go_smul, go_i2f. hproj.
-  assert (B := mul_bd n K 32768 32768 ltac:(lia) ltac:(lia)).
-  rewrite (wrap64 (n * K)) by lia. reflexivity.
+  intros [N K n] (HK & Hn & HN). hproj. zpow. unfold gen_HypergeometicDist_Mean, hg_mean, go_i2f. hproj.
+  hg_unwrap. inj_eq.
 Qed.
 
 Theorem tie_hg_Variance : forall d : HypergeometicDist_rec, hg_guard d ->
   gen_HypergeometicDist_Variance d ==
   hg_var (HypergeometicDist_N d) (HypergeometicDist_K d) (HypergeometicDist_Draws d).
 Proof.
-  intros [N K n] (HK & Hn & HN). hproj. zpow.
-  unfold gen_HypergeometicDist_Variance, hg_var, go_smul, go_ssub, go_i2f. hproj.
-  assert (B1 := mul_bd n K 32768 32768 ltac:(lia) ltac:(lia)).
-  assert (B2 := mul_bd (n * K) (N - K) (32768 * 32768) 32768 ltac:(lia) ltac:(lia)).
-  assert (B3 := mul_bd (n * K * (N - K)) (N - n) (32768 * 32768 * 32768) 32768 ltac:(lia) ltac:(lia)).
-  assert (C1 := mul_bd N N 32768 32768 ltac:(lia) ltac:(lia)).
-  rewrite (wrap64 (N - K)) by lia. rewrite (wrap64 (N - n)) by lia. rewrite (wrap64 (N - 1)) by lia.
-  rewrite (wrap64 (n * K)) by lia. rewrite (wrap64 (n * K * (N - K))) by lia.
-  rewrite (wrap64 (n * K * (N - K) * (N - n))) by lia.
-  rewrite (wrap64 (N * N)) by lia.
-  assert (C2 : (- 4611686018427387904 <= N * N * (N - 1) < 4611686018427387904)%Z).
-  { destruct (Z.eq_dec N 0) as [->|Hz]; [simpl; lia|].
-    assert (C := mul_bd (N * N) (N - 1) (32768 * 32768) 32768 ltac:(lia) ltac:(lia)). lia. }
-  rewrite (wrap64 (N * N * (N - 1))) by exact C2. reflexivity.
+  intros [N K n] (HK & Hn & HN). hproj. zpow. unfold gen_HypergeometicDist_Variance, hg_var, go_i2f. hproj.
+  hg_unwrap. inj_eq.
 Qed.
